@@ -397,6 +397,16 @@ func c10Foreign(c *kit.Case) {
 			rev.Actions[num] = kit.XAction{Gen: g, Value: kit.XArray{kit.XString("plain text " + fmt.Sprint(num)), kit.XDict{"K": kit.XString(r.Bytes(r.Intn(40))), "E": kit.XString("")}, int64(num)}}
 		}
 	}
+	encNum := uint32(0)
+	if r.Chance(1, 3) {
+		// the encryption dictionary as an indirect object (never encrypted itself,
+		// never in an object stream)
+		encNum = uint32(3 + n)
+		rev.Actions[encNum] = kit.XAction{Value: sec.Dict()}
+		rev.Direct = map[uint32]bool{encNum: true}
+		rev.Extra = kit.XDict{"Encrypt": kit.XRef{Num: encNum}, "ID": rev.Extra["ID"]}
+		c.R.Count("foreign_files_with_indirect_encryption_dictionary", 1)
+	}
 	h.Revs = []kit.XRev{rev}
 	latest := map[uint32]kit.XAction{}
 	for num, a := range rev.Actions {
@@ -408,7 +418,7 @@ func c10Foreign(c *kit.Case) {
 		rev2 := kit.XRev{Actions: map[uint32]kit.XAction{}, Kind: "stream", Extra: rev.Extra}
 		for i := 0; i < 1+r.Intn(3); i++ {
 			num := uint32(3 + r.Intn(n+2))
-			if old, ok := latest[num]; ok && old.Gen != 0 {
+			if old, ok := latest[num]; (ok && old.Gen != 0) || num == encNum {
 				continue
 			}
 			if r.Bool() {
@@ -426,6 +436,9 @@ func c10Foreign(c *kit.Case) {
 		}
 	}
 	encrypt := func(num uint32, g uint16, v any) any {
+		if num == encNum && encNum != 0 {
+			return v
+		}
 		var enc func(v any) any
 		enc = func(v any) any {
 			switch x := v.(type) {
